@@ -85,7 +85,8 @@ def Stack.read (n : Nat) : Stack → Base → RRes × Stack × Base
   | .bufio buffered, b =>
     -- bufio.Reader.Read: buffered bytes first; empty buffer: large p reads the conn directly,
     -- small p fills the internal buffer with one read
-    if !buffered.isEmpty then (⟨buffered.take n, none⟩, .bufio (buffered.drop n), b)
+    if n = 0 then (⟨[], none⟩, .bufio buffered, b)          -- len(p) == 0: nothing is read or filled
+    else if !buffered.isEmpty then (⟨buffered.take n, none⟩, .bufio (buffered.drop n), b)
     else if bufioSize ≤ n then let r := b.read n; (r.1, .bufio [], r.2)
     else
       let r := b.read bufioSize
@@ -173,6 +174,43 @@ def engineCopy (env : Env) (fuel : Nat) (st : Stack) (b : Base) : Out :=
     -- relayFastCopy: splice on the unwrapped sockets, wrappers bypassed
     copyLoop spliceStep fuel .plain b
   else copyLoop relayBuf fuel st1 b
+
+/-- each wrapper's OWN `CopyRelayRemainder` method, called at an arbitrary point (the engine only calls
+it right after `take`): `prefixedConn` and `ConnSniffer` copy from the inner conn and bypass whatever
+they still hold; `bufioConn` drains its reader first; a bare conn has no such method (plain loop). -/
+def Stack.copyRemainder (fuel : Nat) (s : Stack) (b : Base) : Out :=
+  match s with
+  | .prefixed _ => copyLoop relayBuf fuel .plain b
+  | .sniffer _ _ => copyLoop relayBuf fuel .plain b       -- copyDirect(dst, s.Conn): inner prefixedConn is exhausted
+  | .bufio bf => if bf.isEmpty then copyLoop relayBuf fuel .plain b else copyLoop relayBuf fuel (.bufio bf) b
+  | .plain => copyLoop relayBuf fuel .plain b
+
+/-- `ConnSniffer.WriteTo`: flush the sniff buffer, then copy the inner conn (a latched error is not
+consulted); for the other wrappers `io.Copy` falls back to plain reads. -/
+def Stack.writeTo (fuel : Nat) (s : Stack) (b : Base) : Out :=
+  match s with
+  | .sniffer buf _ => (copyLoop relayBuf fuel .plain b).prepend buf
+  | s => copyLoop relayBuf fuel s b
+
+/-- one step of an arbitrary use of a wrapper -/
+inductive Act where
+  | read (n : Nat)
+  | take
+deriving Repr
+
+/-- any interleaving of `Read(p)` (any sizes, 0 included) and `TakeRelaySegments`; stops at the first
+read error. Returns what each step handed out, and the final state. -/
+def runActs : List Act → Stack → Base → List Bytes × Stack × Base
+  | [], st, b => ([], st, b)
+  | .take :: as, st, b =>
+    let t := st.take
+    let r := runActs as t.2 b
+    (t.1 :: r.1, r.2)
+  | .read n :: as, st, b =>
+    let r := st.read n b
+    match r.1.err with
+    | none => let q := runActs as r.2.1 r.2.2; (r.1.data :: q.1, q.2)
+    | some _ => ([r.1.data], r.2)
 
 /-! ## Part 2 — explicit time: detection windows, relay start, half-close grace -/
 
